@@ -13,6 +13,8 @@ P = "param.parameterized."
 def run(ctx):
     ctx.rule("R17.l", "Parameterized.__getstate__, interpreted abstractly, saves every ordinary attribute and the complete per-instance value store -- entries that are still the class default object included (that entry pins a constant to the instance; a copy without it follows later class-level sets)", floor=1)
     ctx.rule("R17.m", "restoring a Parameter restores and nothing else: no __setstate__ of a Parameter class calls a method that recomputes slots from others (_update_state, compute_default, update, _ensure_value_is_in_objects, _validate): the copy must hold what was saved, e.g. an objects list the default was removed from", floor=2)
+    ctx.rule("R17.w", "no shared clock is pinned onto copied state: _Dynamic_time_fn (and the value/time pair) of a generator -- which lives in the instance's values and is duplicated by "
+                      "deepcopy / pickle -- is written only by the sanctioned writers (_initialize_generator, set_dynamic_time_fn; _produce_value, _state_pop for the pair)", floor=8)
     ctx.rule("R17.a", "__setstate__ rebuilds every method-caller watcher as _m_caller(self, name), i.e. it assumes the object HOLDING the watcher owns the method; "
                       "every installer of such a caller must therefore register _m_caller(X, ...) on X itself", floor=1)
     ctx.rule("R17.e", "__setstate__ re-creates the Watcher tuples of a copy, so (i) it rebinds a bound-method callback by name only when that method's owner IS the watched instance "
@@ -453,3 +455,5 @@ def run(ctx):
                  input="@depends('a', 'b', watch=True) def cb; c = copy.deepcopy(p); c.param.update(a=1, b=1) -> cb runs twice")
     else:
         ctx.ok("R17.i", ss, ss.node, "saved table {a: [w_ab, w_a], b: [w_ab]} -> {a: [n0, n1], b: [n0]}: identity, order, binding to the copy and callbacks as specified")
+    from checks.shared import dynamic_cache_writers
+    dynamic_cache_writers(ctx, "R17.w")
